@@ -84,7 +84,19 @@ class Verifier:
         if r == z3.unsat:
             return "unsat", None, ""
         if r == z3.sat:
-            return "sat", s.model(), ""
+            model = s.model()
+            # prefer a counter-model with short sequences (replayable)
+            lens = [n for n in self.ex.len_symbols if z3.is_const(n)]
+            if lens:
+                for k in (1, 2, 3, 5):
+                    s.push()
+                    s.add(*[n <= k for n in lens])
+                    if s.check() == z3.sat:
+                        model = s.model()
+                        s.pop()
+                        break
+                    s.pop()
+            return "sat", model, ""
         return "unknown", None, s.reason_unknown()
 
     # ------------------------------------------------------------------------------------------------ verify
@@ -186,6 +198,8 @@ class Verifier:
                 if k in mro:
                     allowed = k
                     break
+            if any(k in mro for k in c.never_raises):
+                allowed = None  # explicitly forbidden (e.g. lark's VisitError must never escape)
             if self._only is not None and "raises-only-declared" not in self._only and allowed is None:
                 return
             if allowed is None:
@@ -223,7 +237,7 @@ class Verifier:
         env = dict(values)
         env["result"] = result
         for gk, gv in s.ghost.items():
-            if isinstance(gk, str):
+            if isinstance(gk, str) and not isinstance(gv, (int, list, dict)):
                 env["ghost_" + gk] = gv
         try:
             goal = c.clause_formula(ex, s, clause, env)
